@@ -799,7 +799,7 @@ theorem rel_alignAssignOps_go (fuel : Nat) (ls : List OutLine) : Rel ls (alignAs
         · rename_i op0 hop
           simp only []
           generalize hP : (fun (x : OutLine) =>
-            !x.skipAlign && leadingWs x.text == leadingWs o.text && (findAssignOp x.text).isSome) = P
+            !x.skipAlign && leadingWs x.text == leadingWs o.text && (findAssignOp x).isSome) = P
           have hsplit := takeWhile_append_drop_length P rest
           have : o :: rest = (o :: rest.takeWhile P) ++ rest.drop (rest.takeWhile P).length := by
             simp [hsplit]
@@ -836,6 +836,55 @@ theorem nonWs_padAt (t : Text) (i n : Nat) : nonWs (padAt t i n) = nonWs t := by
   have h : padAt t i n = (splitAtByte t i).1 ++ spaces n ++ (splitAtByte t i).2 := rfl
   rw [h, nonWs_append, nonWs_append, nonWs_spaces, List.append_nil, ← nonWs_append, splitAtByte_append]
 
+theorem offsetAfter_go_ge (t : Text) (n off : Nat) : off ≤ offsetAfter.go t n off := by
+  induction t generalizing n off with
+  | nil => simp [offsetAfter.go]
+  | cons c cs ih =>
+    unfold offsetAfter.go
+    split
+    · exact Nat.le_trans (Nat.le_add_right _ _) (ih n _)
+    · split
+      · exact Nat.le_refl _
+      · exact Nat.le_trans (Nat.le_add_right _ _) (ih _ _)
+
+theorem nonWs_splitAt_offsetAfter_go (t : Text) (n off : Nat) (hn : n < (nonWs t).length) :
+    (nonWs (splitAtByte t (offsetAfter.go t n off - off)).1).length = n := by
+  induction t generalizing n off with
+  | nil => simp [nonWs] at hn
+  | cons c cs ih =>
+    have hpos : 0 < c.utf8Size := Char.utf8Size_pos c
+    unfold offsetAfter.go
+    by_cases hw : isWs c = true
+    · have hn' : n < (nonWs cs).length := by simpa [nonWs, List.filter_cons, hw] using hn
+      have hge := offsetAfter_go_ge cs n (off + c.utf8Size)
+      simp only [hw, if_true]
+      unfold splitAtByte
+      have hne : ¬ (offsetAfter.go cs n (off + c.utf8Size) - off = 0) := by omega
+      simp only [hne, if_false]
+      have : offsetAfter.go cs n (off + c.utf8Size) - off - c.utf8Size =
+          offsetAfter.go cs n (off + c.utf8Size) - (off + c.utf8Size) := by omega
+      rw [this]
+      simpa [nonWs, List.filter_cons, hw] using ih n (off + c.utf8Size) hn'
+    · simp only [hw, Bool.false_eq_true, if_false]
+      cases n with
+      | zero => simp [splitAtByte, nonWs]
+      | succ m =>
+        have hn' : m < (nonWs cs).length := by simpa [nonWs, List.filter_cons, hw] using hn
+        have hge := offsetAfter_go_ge cs m (off + c.utf8Size)
+        simp only []
+        unfold splitAtByte
+        have hne : ¬ (offsetAfter.go cs m (off + c.utf8Size) - off = 0) := by omega
+        simp only [hne, if_false]
+        have : offsetAfter.go cs m (off + c.utf8Size) - off - c.utf8Size =
+            offsetAfter.go cs m (off + c.utf8Size) - (off + c.utf8Size) := by omega
+        rw [this]
+        simpa [nonWs, List.filter_cons, hw] using ih m (off + c.utf8Size) hn'
+
+theorem nonWs_splitAt_offsetAfter (t : Text) (n : Nat) (hn : n < (nonWs t).length) :
+    (nonWs (splitAtByte t (offsetAfter t n)).1).length = n := by
+  have := nonWs_splitAt_offsetAfter_go t n 0 hn
+  simpa [offsetAfter] using this
+
 theorem nonWs_alignAssignOps_go (fuel : Nat) (ls : List OutLine) :
     (alignAssignOps.go ls fuel).map (fun x => nonWs x.text) = ls.map (fun x => nonWs x.text) := by
   induction fuel generalizing ls with
@@ -855,7 +904,7 @@ theorem nonWs_alignAssignOps_go (fuel : Nat) (ls : List OutLine) :
         · rename_i op0 hop
           simp only []
           generalize hP : (fun (x : OutLine) =>
-            !x.skipAlign && leadingWs x.text == leadingWs o.text && (findAssignOp x.text).isSome) = P
+            !x.skipAlign && leadingWs x.text == leadingWs o.text && (findAssignOp x).isSome) = P
           have hsplit := takeWhile_append_drop_length P rest
           have : o :: rest = (o :: rest.takeWhile P) ++ rest.drop (rest.takeWhile P).length := by
             simp [hsplit]
